@@ -28,6 +28,7 @@ from . import cpu_count, get_context
 from . import util
 from .common import (
     TERM_SIGNAL, human_status, pickle_loads, reset_signals, restart_state,
+    _should_have_exited,
 )
 from .compat import get_errno, mem_rss, send_offset
 from .einfo import ExceptionInfo
@@ -360,7 +361,13 @@ class Worker:
                             continue  # received NACK
                     try:
                         result = (True, prepare_result(fun(*args, **kwargs)))
-                    except BaseException:
+                    except BaseException as exc:
+                        if (isinstance(exc, SystemExit) and
+                                _should_have_exited[0]):
+                            # the termination signal handler raised
+                            # SystemExit inside the task: exit instead of
+                            # reporting a task error and taking more jobs.
+                            raise
                         result = (False, ExceptionInfo())
                     try:
                         put((READY, (job, i, result, inqW_fd)))
